@@ -47,6 +47,7 @@ MUTANTS = [
     ("C05", F, "            alpha_const -= np.log(2 * np.pi)\n", "", "K", "revert fix D8"),
     ("C05", F, "bandwidth_const = np.sqrt(3 / 10 * np.log(10))", "bandwidth_const = np.sqrt(3 / 10 * np.log(9))", "K", "3 dB constant"),
     ("C05", F, "        if not (0 <= low_hz < high_hz <= nyquist + 1):", "        if not (0 <= low_hz <= high_hz <= nyquist + 1):", "K", "range check"),
+    ("C05", F, "        log_double_factorial = math.lgamma(2 * order - 1)", "        log_double_factorial = np.log(math.factorial(2 * order - 2))", "K", "revert fix D34"),
     ("C06", F, "        return left_idx % width, res\n\n\nclass ComplexGammatoneFilterBank", "        return left_idx, res\n\n\nclass ComplexGammatoneFilterBank", "K", "missing modulo"),
     ("C06", F, "        return left_idx % width, self._H(omega, filt_idx)", "        return left_idx % width, self._H(omega[:-1], filt_idx)", "K", "short buffer"),
     ("C07", F, "            h_0 = np.abs(self._h(right + offset, idx))\n            while h_0 > eps:", "            h_0 = np.abs(self._h(right, idx))\n            while h_0 > eps:", "K", "partial revert of fix D9"),
